@@ -154,8 +154,10 @@ def struct_eq(I, a, b):
     if isinstance(a, MapObj) and isinstance(b, MapObj):
         if len(a.entries) != len(b.entries):
             return False
-        return conj([conj([struct_eq(I, k1, k2), struct_eq(I, v1, v2)])
-                     for (k1, v1), (k2, v2) in zip(a.entries, b.entries)])
+        # HashMap / HashSet / IndexMap equality ignores the order of the entries (indexmap documents this explicitly):
+        # same size and every entry of a has an equal entry in b
+        return conj([disj([conj([struct_eq(I, k1, k2), struct_eq(I, v1, v2)]) for (k2, v2) in b.entries])
+                     for (k1, v1) in a.entries])
     if isinstance(a, (int, bool, z3.ExprRef)) and isinstance(b, (int, bool, z3.ExprRef)):
         return _interp.eq_scalar(a, b)
     if a is b:
@@ -173,4 +175,5 @@ import models_json     # noqa
 import models_tera     # noqa
 import models_misc     # noqa
 import models_env      # noqa
+import models_serde    # noqa
 _interp.OVERRIDES.update(models_tera.OVERRIDES)
